@@ -238,23 +238,36 @@ def s_sorted(F, res):
 
 
 def s_all(F, res):
-    for name, what in (("compile_spend_redeemers", "UTxOs of a script input"), ("compile_single_mint_redeemer", "policies of a mint/burn block")):
-        f = _soft(F, res, "S-ALL", name)
-        if f is None:
+    """No function in the closure of compile_redeemers may truncate an item list (`first`/`last`/`take`/`nth`, or a `next()`
+    outside a for-loop): a redeemer is owed to every UTxO of a script input and to every policy of a mint/burn block.  Found by
+    role (call-graph closure), keyed by the function that truncates."""
+    root = C + "compile_redeemers"
+    if root not in F.fns:
+        raise BrokenCheck("compile_redeemers not found")
+    cg = CallGraph(F, callbacks=False)
+    reach = cg.reachable([root])
+    n = 0
+    hit = False
+    for p in sorted(reach):
+        f = F.fns.get(p)
+        if f is None or f["crate"] != "tx3_cardano" or f.get("derived"):
             continue
-        key = "%s|no truncation" % f["path"]
+        n += 1
         trunc = []
-        for b in with_closures(F, f):
-            for bi, t in mir.calls(b):
-                c = t.get("callee") or ""
-                if re.search(r"(core::slice::<impl \[T\]>::(first|last)|std::iter::Iterator::(take|nth|last)|std::iter::Iterator::next)$", c):
-                    if c.endswith("Iterator::next") and any(x in t.get("exp", "") for x in ("ForLoop",)):
-                        continue
-                    trunc.append((c.split("::")[-1], t["line"]))
+        for bi, t in mir.calls(f):
+            c = t.get("callee") or ""
+            if re.search(r"(core::slice::<impl \[T\]>::(first|last)|std::iter::Iterator::(take|nth|last)|std::iter::Iterator::next)$", c):
+                if c.endswith("Iterator::next") and "ForLoop" in t.get("exp", ""):
+                    continue
+                trunc.append((c.split("::")[-1], t["line"]))
         if trunc:
-            res.add([finding("S-ALL", key, where(f, trunc[0][1]), "%s takes only `%s()` of the %s: the remaining items get no redeemer" % (name, trunc[0][0], what))])
-        else:
-            res.add([ok("S-ALL", key, where(f), "every item is visited")])
+            hit = True
+            owner = f.get("owner") or p
+            res.add([finding("S-ALL", "%s|no truncation" % owner, where(f, trunc[0][1]), "%s takes only `%s()` of an item list while building redeemers: the remaining items (UTxOs of the input / policies of the block) get no redeemer" % (owner.split("::")[-1], trunc[0][0]))])
+    res.count("functions in the redeemer closure", n)
+    res.floor("functions in the redeemer closure", n, 8)
+    if not hit:
+        res.add([ok("S-ALL", root + "|no truncation in the closure", where(F.fns[root]), "no first/last/take/nth/next among %d functions" % n)])
 
 
 def siblings(F, res):
